@@ -57,3 +57,6 @@ func RootParam(v ssa.Value) *ssa.Parameter  { return rootParam(v) }
 func HasSliceOnPath(v ssa.Value) bool       { return hasSliceOnPath(v) }
 func IsLenOf(v ssa.Value) (ssa.Value, bool) { return isLenOf(v) }
 func StripConv(v ssa.Value) ssa.Value       { return stripConv(v) }
+
+// WrittenOnlyByInit: no function of the module other than a package initialiser stores to g or lets its address escape.
+func (c *Ctx) WrittenOnlyByInit(g *ssa.Global) bool { return c.writtenOnlyByInit(g) }
